@@ -12,6 +12,8 @@ from typing import (
     Union,
 )
 
+import numpy as np
+import onnx
 import onnx_ir as ir
 
 import onnxscript
@@ -135,6 +137,18 @@ def make_value(
     value.meta.setdefault("sourceinfo", source_info)
     if typeinfo is not None:
         set_type_info(value, typeinfo)
+    return value
+
+
+def _snapshot_constant(value: Any) -> Any:
+    """Copies a mutable script-time constant (numpy array, TensorProto) so that the
+    generated IR does not alias an object the user may mutate after decoration."""
+    if isinstance(value, np.ndarray):
+        return value.copy()
+    if isinstance(value, onnx.TensorProto):
+        copied = onnx.TensorProto()
+        copied.CopyFrom(value)
+        return copied
     return value
 
 
@@ -442,7 +456,7 @@ class Converter:
         ovar = self._generate_unique_name(suggested_name)
 
         try:
-            tensor = ir.tensor(pyvalue, name=ovar)
+            tensor = ir.tensor(_snapshot_constant(pyvalue), name=ovar)
         except Exception as exc:  # pylint: disable=broad-exception-caught
             self._fail(
                 info.ast_node,
@@ -579,7 +593,7 @@ class Converter:
             return None
         attr_type = attr_meta.type if attr_meta else None
         if attr_type == ir.AttributeType.TENSOR:
-            val = ir.tensor(val)
+            val = ir.tensor(_snapshot_constant(val))
         attr = ir.convenience.convert_attribute(attr_name, val, attr_type)
         return attr
 
